@@ -127,6 +127,24 @@ def observe(cfg, xs):
                 p4, h4 = nm0.test(x.copy())
                 h4 = [float(v) for v in np.asarray(h4, dtype=float).ravel()]
                 obs["u_late_differs"] = not (feq(float(p4), obs["p"]) and len(h4) == len(obs["hist"]) and all(feq(a, b) for a, b in zip(h4, obs["hist"])))
+            # the sample as a plain list (documented: "list" / "array-like"), and the population size as a numpy integer
+            # (Contest.check_cards produces one and it is passed on as N): same answer required
+            try:
+                p8, h8 = make(cfg).test([float(v) for v in xs])
+                h8 = [float(v) for v in np.asarray(h8, dtype=float).ravel()]
+                same8 = feq(float(p8), obs["p"]) and len(h8) == len(obs["hist"]) and all(feq(a, b) for a, b in zip(h8, obs["hist"]))
+                if cfg["N"] is not None and same8:
+                    nmn = make(cfg)
+                    nmn.N = np.int64(cfg["N"])
+                    p9, h9 = nmn.test(x.copy())
+                    h9 = [float(v) for v in np.asarray(h9, dtype=float).ravel()]
+                    same8 = feq(float(p9), obs["p"]) and len(h9) == len(obs["hist"]) and all(feq(a, b) for a, b in zip(h9, obs["hist"]))
+                    if not same8:
+                        obs["arg_type"] = "population size given as numpy.int64: another answer"
+                elif not same8:
+                    obs["arg_type"] = "sample given as a list: another answer"
+            except Exception as e:  # noqa
+                obs["arg_type"] = f"sample given as a list / N as numpy.int64: {type(e).__name__}: {str(e)[:60]}"
             # the declaration "the sample is / is not in random order" may be changed on an existing test object (an audit
             # learns that the order of a batch was not random): the answer is that of an object built with the new value
             if "ro" in cfg and not (cfg["test"] == "wald_sprt" and cfg["N"] is not None):
